@@ -375,12 +375,15 @@ func verifyFunc(prog *ssa.Program, spkg *ssa.Package, contracts *Contracts, fn *
 	if c != nil {
 		tr.topProps = c.Props
 		tr.appendView = c.AppendView
+		tr.uninterpStrings = c.Strings == "uninterpreted"
 	}
 	if len(opts.props) > 0 && len(tr.topProps) == 0 {
 		tr.topProps = opts.props
 	}
 	res = &FuncResult{Key: tr.topKey, tr: tr}
 	defer func() {
+		tr.factInfos()
+		tr.factIndex(len(tr.facts))
 		res.Obls = tr.obls
 		res.Warnings = tr.warnings
 		for k := range tr.trusted {
@@ -735,12 +738,26 @@ func (tr *Translator) instantiateLaw(env *Env, cl *Clause) string {
 	}
 	var pre []string
 	var law string
+	// a function whose result is named by a spec function (defines result == f(params)): its proved
+	// ensures clauses are laws of f
+	var def Expr
+	for _, lc := range c.Clauses {
+		if lc.Kind == "defines" {
+			if b, ok := lc.E.(*Binary); ok && b.Op == "==" {
+				if id, ok := b.X.(*Ident); ok && id.Name == "result" {
+					def = b.Y
+				}
+			}
+		}
+	}
 	for _, lc := range c.Clauses {
 		switch {
 		case lc.Kind == "requires":
 			pre = append(pre, n.eval(lc.E).E())
 		case lc.Kind == "law" && lc.Name == lawName:
 			law = n.eval(lc.E).E()
+		case lc.Kind == "ensures" && lc.Name == lawName && def != nil && c.Assigns != nil && len(c.Assigns.Items) == 0:
+			law = n.eval(substResult(lc.E, def)).E()
 		}
 	}
 	if law == "" {
